@@ -123,6 +123,7 @@ type xferDir struct {
 	readPause int           // pause after this many reads (0 = never)
 	pauseFor  time.Duration // length of the pause
 	setRecvParams bool      // receiver mirrors the reliability params on its stream object
+	oddWrites     bool      // the writer mixes rejected / failing calls among the good ones (C18)
 	deadlines     bool      // the reader arms read deadlines before some reads
 	flip          []bool    // the writer toggles ordered/unordered before write i (mixed ordering on one stream)
 	shortReads    bool      // the reader sometimes offers a buffer that is too small first
@@ -132,6 +133,7 @@ type xferDir struct {
 	rx         *simStream
 	writerDone bool
 	msgs       []*msgRec
+	emptyWrites int
 }
 
 func (d *xferDir) reliable() bool { return d.relType == ReliabilityTypeReliable }
@@ -147,6 +149,7 @@ type xfer struct {
 	completed bool
 	onRead    func(d *xferDir, r *readRec)
 	bufSize   int
+	odd       []*msgRec // calls that must have had no effect
 }
 
 func newXfer(w *world) *xfer {
@@ -266,6 +269,9 @@ func (x *xfer) start() {
 					time.Sleep(d.gaps[i])
 					vsimWoke(h)
 				}
+				if d.oddWrites {
+					x.oddWrite(d, st, s)
+				}
 				if d.flip != nil && d.flip[i] {
 					curUnordered = !curUnordered
 					s.SetReliabilityParams(curUnordered, d.relType, d.relVal)
@@ -327,6 +333,9 @@ func (x *xfer) gotStream(ep *endpoint, sid uint16, s *Stream) *simStream {
 				// a read under a deadline (C18): it returns the deadline error at the deadline, not
 				// earlier, and nothing is lost or duplicated by it
 				dd := time.Duration(pick(w.wtape, 0, 1, 5, 50, 200, 1000, 10000)) * time.Millisecond
+				if ms := w.params["deadline_ms"]; ms > 0 {
+					dd = time.Duration(ms) * time.Millisecond
+				}
 				deadline := time.Now().Add(dd)
 				_ = st.s.SetReadDeadline(deadline)
 				dl := w.now() + dd
@@ -340,6 +349,9 @@ func (x *xfer) gotStream(ep *endpoint, sid uint16, s *Stream) *simStream {
 						w.violate("C18", "deadline-late", "%s stream %d: read blocked until %v although its deadline was %v", ep.name, sid, r.at, dl)
 					}
 					// clear or re-arm, then go on reading
+					if w.params["deadline_ms"] > 0 {
+						continue // directed: the next iteration re-arms at once
+					}
 					if w.wtape.intn(2) == 0 {
 						_ = st.s.SetReadDeadline(time.Time{})
 					} else {
@@ -563,6 +575,7 @@ func genDirs(w *world, o xferOpts) []*xferDir {
 			if tp.intn(4) == 0 {
 				d.readDelay = time.Duration(1+tp.intn(50)) * time.Millisecond
 			}
+			d.oddWrites = o.oddWrites && tp.intn(2) == 0
 			d.shortReads = tp.intn(3) == 0
 			d.deadlines = o.deadlines && tp.intn(2) == 0
 			if !o.reliableOrderedOnly && tp.intn(3) == 0 && (w.params["kf_recv_unordered"] != 0 || (w.cfg.Side[0].Interleaving && w.cfg.Side[1].Interleaving)) {
@@ -627,6 +640,7 @@ type xferOpts struct {
 	dcep                bool
 	slowReaders         bool
 	deadlines           bool
+	oddWrites           bool
 }
 
 // rtoMaxOf returns the configured RTO.max of an endpoint as a duration (the
@@ -640,4 +654,84 @@ func rtoMaxOf(c sideCfg) time.Duration {
 
 func fmtHeld(sid uint16, n, o, u, uc, om, um int) string {
 	return fmt.Sprintf("[sid=%d bytes=%d ordered=%d unordered=%d loose=%d orderedMID=%d unorderedMID=%d]", sid, n, o, u, uc, om, um)
+}
+
+// oddWrite performs, with some probability, one call that must be rejected or fail
+// without any side effect (C18), and checks its return values. The wire and the
+// peer's history are judged by the ordinary oracles: a rejected call that left a
+// trace shows up as a lost / blocked / extra message or as data on the wire.
+func (x *xfer) oddWrite(d *xferDir, st *simStream, s *Stream) {
+	w := x.w
+	tp := w.wtape
+	ep := st.ep
+	op := tp.intn(8)
+	if f, ok := w.params["odd_force"]; ok {
+		op = f
+	}
+	switch op {
+	case 0:
+		// larger than the maximum message size
+		max := int(ep.assoc.MaxMessageSize())
+		m := w.newMsg(st, max+1+tp.intn(3), false)
+		m.odd = "too-large"
+		x.index[m.ppi] = m
+		x.odd = append(x.odd, m)
+		w.write(st, m)
+		if m.err == nil || m.n != 0 || !errors.Is(m.err, ErrOutboundPacketTooLarge) {
+			w.violate("C18", "too-large-accepted", "%s stream %d: WriteSCTP of %d bytes with MaxMessageSize %d returned n=%d err=%v", ep.name, d.sid, m.size, max, m.n, m.err)
+		}
+		w.probe("odd.too-large-write")
+	case 1:
+		// the limit follows SetMaxMessageSize
+		old := ep.assoc.MaxMessageSize()
+		nm := uint32(100 + tp.intn(3000))
+		ep.assoc.SetMaxMessageSize(nm)
+		m := w.newMsg(st, int(nm)+1, false)
+		m.odd = "too-large-after-set"
+		x.index[m.ppi] = m
+		x.odd = append(x.odd, m)
+		w.write(st, m)
+		if m.err == nil || m.n != 0 {
+			w.violate("C18", "too-large-accepted", "%s stream %d: after SetMaxMessageSize(%d) a write of %d bytes returned n=%d err=%v", ep.name, d.sid, nm, m.size, m.n, m.err)
+		}
+		ep.assoc.SetMaxMessageSize(old)
+		w.probe("odd.too-large-after-set")
+	case 2:
+		if w.params["kf_empty_write"] == 0 && knownClasses["C18:empty-write-disturbs-stream"] {
+			return // trigger region of a recorded finding
+		}
+		m := w.newMsg(st, 0, false)
+		m.odd = "empty"
+		x.index[m.ppi] = m
+		x.odd = append(x.odd, m)
+		d.emptyWrites++
+		w.write(st, m)
+		if m.n != 0 {
+			w.violate("C18", "empty-write-length", "%s stream %d: WriteSCTP with an empty payload returned n=%d err=%v", ep.name, d.sid, m.n, m.err)
+		}
+		w.probe("odd.empty-write")
+	case 3:
+		if !ep.cfg.BlockWrite {
+			return
+		}
+		// a blocking write whose deadline is already over / very near
+		dl := time.Duration(pick(tp, 0, 1, 20, 200)) * time.Millisecond
+		_ = s.SetWriteDeadline(time.Now().Add(dl))
+		m := w.newMsg(st, 1+tp.intn(2000), false)
+		m.odd = "deadline"
+		m.unordered, m.relType, m.relVal = d.unordered, d.relType, d.relVal
+		x.index[m.ppi] = m
+		w.write(st, m)
+		_ = s.SetWriteDeadline(time.Time{})
+		if m.err != nil {
+			x.odd = append(x.odd, m)
+			if m.n != 0 {
+				w.violate("C18", "failed-write-length", "%s stream %d: a blocking write that failed with %v returned n=%d", ep.name, d.sid, m.err, m.n)
+			}
+			w.probe("odd.write-deadline-expired")
+		} else {
+			// it went through: an ordinary accepted message
+			d.msgs = append(d.msgs, m)
+		}
+	}
 }
